@@ -93,18 +93,17 @@ theorem Reach.trans {own : Bytes → List Bytes} {a b c : Bytes} (h1 : Reach own
 
 /-! ## laws relative to an invariant -/
 
-/-- `Trav.Lawful` restricted to states satisfying an invariant the action preserves -/
+/-- `Trav.Lawful` restricted to states satisfying an invariant the action preserves; the owner LIST
+may depend on the state as long as its set of elements does not (commit re-sorts the inputs) -/
 structure Trav.LawfulOn (T : Trav σ) (own : Bytes → List Bytes) (Inv : σ → Prop) : Prop where
-  owners_eq : ∀ st sp os, Inv st → T.owners st sp = .ok os → os = own sp
+  owners_eq : ∀ st sp os, Inv st → T.owners st sp = .ok os → ∀ x, x ∈ os ↔ x ∈ own sp
   act_done : ∀ sp st st', Inv st → T.act sp st = .ok st' →
     ∀ x, T.isDone st' x = (x == sp || T.isDone st x)
   act_inv : ∀ sp st st', Inv st → T.act sp st = .ok st' → Inv st'
 
 theorem Trav.Lawful.lawfulOn {T : Trav σ} {own} (h : T.Lawful own) : T.LawfulOn own (fun _ => True) :=
-  ⟨fun st sp os _ => h.owners_eq st sp os, fun sp st st' _ => h.act_done sp st st', fun _ _ _ _ _ => trivial⟩
-
-theorem Trav.LawfulOn.lawful {T : Trav σ} {own} (h : T.LawfulOn own (fun _ => True)) : T.Lawful own :=
-  ⟨fun st sp os => h.owners_eq st sp os trivial, fun sp st st' => h.act_done sp st st' trivial⟩
+  ⟨fun st sp os _ ho x => by rw [h.owners_eq st sp os ho], fun sp st st' _ => h.act_done sp st st',
+    fun _ _ _ _ _ => trivial⟩
 
 /-! ## erasing the ghost log -/
 
@@ -154,28 +153,28 @@ theorem visit_erase (T : Trav σ) (r : Bool) : ∀ (fuel : Nat) (avail : List By
 /-! ## the trace invariant -/
 
 /-- what a successful logged traversal from `p` to `p'` did: it appended `d` to the log -/
-def Trace (T : Trav σ) (own : Bytes → List Bytes) (Inv : σ → Prop) (r : Bool) (avail : List Bytes)
+def Trace (T : Trav σ) (own : Bytes → List Bytes) (Inv : σ → Prop) (r : Bool) (A : Bytes → Prop)
     (P : Bytes → Prop) (p p' : σ × List Bytes) : Prop :=
   ∃ d, p'.2 = p.2 ++ d ∧ Inv p'.1 ∧ d.Nodup ∧
-    (∀ x, x ∈ d → x ∈ avail ∧ T.isDone p.1 x = false ∧ P x) ∧
+    (∀ x, x ∈ d → A x ∧ T.isDone p.1 x = false ∧ P x) ∧
     (∀ x, T.isDone p'.1 x = (T.isDone p.1 x || d.contains x)) ∧
     (r = true → ∀ x, x ∈ d → ∀ o, o ∈ own x → T.isDone p.1 o = true ∨ Before d o x)
 
 variable {T : Trav σ} {own : Bytes → List Bytes} {Inv : σ → Prop} {r : Bool}
 
-theorem Trace.refl {avail : List Bytes} {P : Bytes → Prop} {p : σ × List Bytes} (h : Inv p.1) :
-    Trace T own Inv r avail P p p :=
+theorem Trace.refl {A : Bytes → Prop} {P : Bytes → Prop} {p : σ × List Bytes} (h : Inv p.1) :
+    Trace T own Inv r A P p p :=
   ⟨[], by simp, h, by simp, by simp, by simp, by simp⟩
 
-theorem Trace.mono {avail avail' : List Bytes} {P P' : Bytes → Prop} {p p' : σ × List Bytes}
-    (ha : ∀ x, x ∈ avail → x ∈ avail') (hP : ∀ x, P x → P' x)
-    (h : Trace T own Inv r avail P p p') : Trace T own Inv r avail' P' p p' := by
+theorem Trace.mono {A A' : Bytes → Prop} {P P' : Bytes → Prop} {p p' : σ × List Bytes}
+    (ha : ∀ x, A x → A' x) (hP : ∀ x, P x → P' x)
+    (h : Trace T own Inv r A P p p') : Trace T own Inv r A' P' p p' := by
   obtain ⟨d, h1, h2, h3, h4, h5, h6⟩ := h
   exact ⟨d, h1, h2, h3, fun x hx => ⟨ha _ (h4 x hx).1, (h4 x hx).2.1, hP _ (h4 x hx).2.2⟩, h5, h6⟩
 
-theorem Trace.trans {avail : List Bytes} {P : Bytes → Prop} {p p1 p2 : σ × List Bytes}
-    (h : Trace T own Inv r avail P p p1) (h' : Trace T own Inv r avail P p1 p2) :
-    Trace T own Inv r avail P p p2 := by
+theorem Trace.trans {A : Bytes → Prop} {P : Bytes → Prop} {p p1 p2 : σ × List Bytes}
+    (h : Trace T own Inv r A P p p1) (h' : Trace T own Inv r A P p1 p2) :
+    Trace T own Inv r A P p p2 := by
   obtain ⟨d, h1, _, h3, h4, h5, h6⟩ := h
   obtain ⟨e, g1, g2, g3, g4, g5, g6⟩ := h'
   have hnew : ∀ x, x ∈ e → T.isDone p.1 x = false ∧ x ∉ d := by
@@ -204,23 +203,23 @@ theorem Trace.trans {avail : List Bytes} {P : Bytes → Prop} {p p1 p2 : σ × L
         · exact .inr (Before.of_mem_append (by simpa using h) hx)
       · exact .inr (h.append_left d)
 
-theorem Trace.done_mono {avail : List Bytes} {P : Bytes → Prop} {p p' : σ × List Bytes}
-    (h : Trace T own Inv r avail P p p') {x : Bytes} (hx : T.isDone p.1 x = true) :
+theorem Trace.done_mono {A : Bytes → Prop} {P : Bytes → Prop} {p p' : σ × List Bytes}
+    (h : Trace T own Inv r A P p p') {x : Bytes} (hx : T.isDone p.1 x = true) :
     T.isDone p'.1 x = true := by
   obtain ⟨d, _, _, _, _, h5, _⟩ := h
   rw [h5, hx]; rfl
 
-theorem Trace.inv {avail : List Bytes} {P : Bytes → Prop} {p p' : σ × List Bytes}
-    (h : Trace T own Inv r avail P p p') : Inv p'.1 := by
+theorem Trace.inv {A : Bytes → Prop} {P : Bytes → Prop} {p p' : σ × List Bytes}
+    (h : Trace T own Inv r A P p p') : Inv p'.1 := by
   obtain ⟨d, _, h2, _⟩ := h
   exact h2
 
 /-- one action -/
-theorem Trace.act (hT : T.LawfulOn own Inv) {avail : List Bytes} {P : Bytes → Prop} {sp : Bytes}
-    {p p' : σ × List Bytes} (hi : Inv p.1) (hnd : T.isDone p.1 sp = false) (ha : sp ∈ avail)
+theorem Trace.act (hT : T.LawfulOn own Inv) {A : Bytes → Prop} {P : Bytes → Prop} {sp : Bytes}
+    {p p' : σ × List Bytes} (hi : Inv p.1) (hnd : T.isDone p.1 sp = false) (ha : A sp)
     (hP : P sp) (hown : r = true → ∀ o, o ∈ own sp → T.isDone p.1 o = true)
     (h : T.logged.act sp p = .ok p') :
-    Trace T own Inv r avail P p p' ∧ T.isDone p'.1 sp = true := by
+    Trace T own Inv r A P p p' ∧ T.isDone p'.1 sp = true := by
   simp only [Trav.logged] at h
   cases hact : T.act sp p.1 with
   | error e => rw [hact] at h; cases h
@@ -244,11 +243,11 @@ theorem Trace.act (hT : T.LawfulOn own Inv) {avail : List Bytes} {P : Bytes → 
       rw [hd sp]; simp
 
 /-- the sequential part: visiting a list of owners one after the other -/
-theorem visitAll_trace {f : Bytes → σ × List Bytes → Except Err (σ × List Bytes)} {avail : List Bytes}
+theorem visitAll_trace {f : Bytes → σ × List Bytes → Except Err (σ × List Bytes)} {A : Bytes → Prop}
     (hf : ∀ o p p', Inv p.1 → f o p = .ok p' →
-      Trace T own Inv r avail (Reach own o) p p' ∧ T.isDone p'.1 o = true) :
+      Trace T own Inv r A (Reach own o) p p' ∧ T.isDone p'.1 o = true) :
     ∀ (os : List Bytes) (p p' : σ × List Bytes), Inv p.1 → visitAll f os p = .ok p' →
-      Trace T own Inv r avail (fun x => ∃ o, o ∈ os ∧ Reach own o x) p p' ∧
+      Trace T own Inv r A (fun x => ∃ o, o ∈ os ∧ Reach own o x) p p' ∧
       ∀ o, o ∈ os → T.isDone p'.1 o = true
   | [], p, p', hi, h => by
     simp only [visitAll] at h
@@ -272,7 +271,7 @@ theorem visitAll_trace {f : Bytes → σ × List Bytes → Except Err (σ × Lis
 /-- **Main invariant.** A successful logged traversal is a `Trace`, and its root ends up done. -/
 theorem visit_trace (hT : T.LawfulOn own Inv) : ∀ (fuel : Nat) (avail : List Bytes) (sp : Bytes)
     (p p' : σ × List Bytes), Inv p.1 → visit T.logged r fuel avail sp p = .ok p' →
-      Trace T own Inv r avail (Reach own sp) p p' ∧ T.isDone p'.1 sp = true
+      Trace T own Inv r (· ∈ avail) (Reach own sp) p p' ∧ T.isDone p'.1 sp = true
   | 0, _, _, _, _, _, h => by simp [visit] at h
   | fuel+1, avail, sp, p, p', hi, h => by
     simp only [visit] at h
@@ -293,18 +292,17 @@ theorem visit_trace (hT : T.LawfulOn own Inv) : ∀ (fuel : Nat) (avail : List B
     | ok os =>
       rw [hos] at h
       have hown := hT.owners_eq p.1 sp os hi hos
-      subst hown
       simp only at h
       by_cases hr : r = true
       · rw [if_pos hr] at h
-        cases hv : visitAll (visit T.logged r fuel (avail.filter (· != sp))) (own sp) p with
+        cases hv : visitAll (visit T.logged r fuel (avail.filter (· != sp))) os p with
         | error e => rw [hv] at h; cases h
         | ok p1 =>
           rw [hv] at h
           simp only at h
           obtain ⟨t1, d1⟩ := visitAll_trace
             (fun o q q' hq hv => visit_trace hT fuel (avail.filter (· != sp)) o q q' hq hv)
-            (own sp) p p1 hi hv
+            os p p1 hi hv
           have hnd1 : T.isDone p1.1 sp = false := by
             obtain ⟨d, _, _, _, h4, h5, _⟩ := t1
             rw [h5, hnd, Bool.false_or]
@@ -313,12 +311,119 @@ theorem visit_trace (hT : T.LawfulOn own Inv) : ∀ (fuel : Nat) (avail : List B
             | true =>
               have := (h4 sp (by simpa using hc)).1
               simp at this
-          obtain ⟨t2, d2⟩ := Trace.act (P := Reach own sp) hT t1.inv hnd1 hav (Reach.refl sp)
-            (fun _ => d1) h
+          obtain ⟨t2, d2⟩ := Trace.act (A := (· ∈ avail)) (P := Reach own sp) hT t1.inv hnd1 hav (Reach.refl sp)
+            (fun _ o ho => d1 o ((hown o).2 ho)) h
           exact ⟨Trace.trans (t1.mono (fun x hx => (List.mem_filter.1 hx).1)
-            fun x ⟨o, ho, hx⟩ => Reach.step ho hx) t2, d2⟩
+            fun x ⟨o, ho, hx⟩ => Reach.step ((hown o).1 ho) hx) t2, d2⟩
       · rw [if_neg hr] at h
         exact Trace.act hT hi hnd hav (Reach.refl sp) (fun h => absurd h hr) h
+
+/-! ## invariants along the traversal -/
+
+theorem logged_act_inv {sp : Bytes} {p p' : σ × List Bytes} (h : T.logged.act sp p = .ok p') :
+    ∃ s, T.act sp p.1 = .ok s ∧ p' = (s, p.2 ++ [sp]) := by
+  simp only [Trav.logged] at h
+  cases hact : T.act sp p.1 with
+  | error e => rw [hact] at h; cases h
+  | ok s => rw [hact] at h; cases h; exact ⟨s, rfl, rfl⟩
+
+
+/-- inversion of one level of a successful logged traversal -/
+theorem visit_succ_inv {fuel : Nat} {avail : List Bytes} {sp : Bytes} {p p' : σ × List Bytes}
+    (h : visit T.logged r (fuel+1) avail sp p = .ok p') :
+    (T.isDone p.1 sp = true ∧ p' = p) ∨
+    (T.isDone p.1 sp = false ∧ sp ∈ avail ∧ ∃ os p1, T.owners p.1 sp = .ok os ∧
+      (if r then visitAll (visit T.logged r fuel (avail.filter (· != sp))) os p = .ok p1 else p1 = p) ∧
+      T.logged.act sp p1 = .ok p') := by
+  simp only [visit] at h
+  have hd : T.logged.isDone p sp = T.isDone p.1 sp := rfl
+  have ho : T.logged.owners p sp = T.owners p.1 sp := rfl
+  rw [hd, ho] at h
+  split at h
+  · cases h
+    exact .inl ⟨by assumption, rfl⟩
+  rename_i hnd
+  have hnd : T.isDone p.1 sp = false := by simpa using hnd
+  split at h
+  · cases h
+  rename_i hav
+  have hav : sp ∈ avail := by simpa using hav
+  cases hos : T.owners p.1 sp with
+  | error e => rw [hos] at h; cases h
+  | ok os =>
+    rw [hos] at h
+    simp only at h
+    refine .inr ⟨hnd, hav, os, ?_⟩
+    by_cases hr : r = true
+    · rw [if_pos hr] at h
+      cases hv : visitAll (visit T.logged r fuel (avail.filter (· != sp))) os p with
+      | error e => rw [hv] at h; cases h
+      | ok p1 =>
+        rw [hv] at h
+        exact ⟨p1, rfl, by rw [if_pos hr], h⟩
+    · rw [if_neg hr] at h
+      exact ⟨p, rfl, by rw [if_neg hr], h⟩
+
+theorem visitAll_preserves {f : Bytes → σ × List Bytes → Except Err (σ × List Bytes)}
+    {Q : σ × List Bytes → Prop} :
+    ∀ (os : List Bytes), (∀ o, o ∈ os → ∀ p p', Inv p.1 → Q p → f o p = .ok p' → Inv p'.1 ∧ Q p') →
+      ∀ (p p' : σ × List Bytes), Inv p.1 → Q p → visitAll f os p = .ok p' → Inv p'.1 ∧ Q p'
+  | [], _, p, p', hi, hq, h => by simp only [visitAll] at h; cases h; exact ⟨hi, hq⟩
+  | o :: os, hf, p, p', hi, hq, h => by
+    simp only [visitAll] at h
+    cases hfo : f o p with
+    | error e => rw [hfo] at h; cases h
+    | ok p1 =>
+      rw [hfo] at h
+      obtain ⟨hi1, hq1⟩ := hf o List.mem_cons_self p p1 hi hq hfo
+      exact visitAll_preserves os (fun o' ho' => hf o' (List.mem_cons_of_mem _ ho')) p1 p' hi1 hq1 h
+
+/-- **Invariant principle.** A property of the logged state that every action preserves — where the
+action may assume the invariant, that the stage is not done, that (recursive traversal) all its
+owners are done, and that the stage satisfies `R`, a predicate true of the root and inherited by
+owners (e.g. "upstream of the root") — holds at the end of a successful traversal. -/
+theorem visit_preserves_on (hT : T.LawfulOn own Inv) {Q : σ × List Bytes → Prop} {R : Bytes → Prop}
+    (hR : ∀ a o, R a → o ∈ own a → R o)
+    (hQ : ∀ sp p p', R sp → Inv p.1 → Q p → T.isDone p.1 sp = false →
+      (r = true → ∀ o, o ∈ own sp → T.isDone p.1 o = true) → T.logged.act sp p = .ok p' → Q p') :
+    ∀ (fuel : Nat) (avail : List Bytes) (sp : Bytes) (p p' : σ × List Bytes), R sp → Inv p.1 → Q p →
+      visit T.logged r fuel avail sp p = .ok p' → Q p'
+  | 0, _, _, _, _, _, _, _, h => by simp [visit] at h
+  | fuel+1, avail, sp, p, p', hr0, hi, hq, h => by
+    rcases visit_succ_inv h with ⟨_, rfl⟩ | ⟨hnd, hav, os, p1, hos, hup, hact⟩
+    · exact hq
+    have hown := hT.owners_eq p.1 sp os hi hos
+    by_cases hr : r = true
+    · rw [if_pos hr] at hup
+      obtain ⟨t1, d1⟩ := visitAll_trace
+        (fun o q q' hq hv => visit_trace hT fuel (avail.filter (· != sp)) o q q' hq hv)
+        os p p1 hi hup
+      obtain ⟨_, hq1⟩ := visitAll_preserves (Q := Q) os
+        (fun o ho q q' hqi hqq hv =>
+          ⟨(visit_trace hT fuel (avail.filter (· != sp)) o q q' hqi hv).1.inv,
+            visit_preserves_on hT hR hQ fuel (avail.filter (· != sp)) o q q'
+              (hR sp o hr0 ((hown o).1 ho)) hqi hqq hv⟩)
+        p p1 hi hq hup
+      have hnd1 : T.isDone p1.1 sp = false := by
+        obtain ⟨d, _, _, _, h4, h5, _⟩ := t1
+        rw [h5, hnd, Bool.false_or]
+        cases hc : d.contains sp with
+        | false => rfl
+        | true =>
+          have := (h4 sp (by simpa using hc)).1
+          simp at this
+      exact hQ sp p1 p' hr0 t1.inv hq1 hnd1 (fun _ o ho => d1 o ((hown o).2 ho)) hact
+    · rw [if_neg hr] at hup
+      subst hup
+      exact hQ sp p1 p' hr0 hi hq hnd (fun h => absurd h hr) hact
+
+theorem visit_preserves (hT : T.LawfulOn own Inv) {Q : σ × List Bytes → Prop}
+    (hQ : ∀ sp p p', Inv p.1 → Q p → T.isDone p.1 sp = false →
+      (r = true → ∀ o, o ∈ own sp → T.isDone p.1 o = true) → T.logged.act sp p = .ok p' → Q p')
+    (fuel : Nat) (avail : List Bytes) (sp : Bytes) (p p' : σ × List Bytes) (hi : Inv p.1) (hq : Q p)
+    (h : visit T.logged r fuel avail sp p = .ok p') : Q p' :=
+  visit_preserves_on (R := fun _ => True) hT (fun _ _ _ _ => trivial)
+    (fun sp p p' _ => hQ sp p p') fuel avail sp p p' trivial hi hq h
 
 /-! ## back to the traversal without the ghost log -/
 
@@ -386,19 +491,18 @@ theorem visit_guarded_eq (hT : T.LawfulOn own Inv) : ∀ (fuel : Nat) (avail : L
     | error e => rfl
     | ok os =>
       have hown := hT.owners_eq st sp os hi hos
-      subst hown
       simp only [if_true]
       rw [visitAll_congr_on (Inv := Inv)
         (fun o s hs => visit_guarded_eq hT fuel (avail.filter (· != sp)) o s hs)
-        (fun o s s' hs h => (visit_ok hT hs h).1) (own sp) st hi]
-      cases hv : visitAll (visit T true fuel (avail.filter (· != sp))) (own sp) st with
+        (fun o s s' hs h => (visit_ok hT hs h).1) os st hi]
+      cases hv : visitAll (visit T true fuel (avail.filter (· != sp))) os st with
       | error e => rfl
       | ok st1 =>
         simp only
         have hd := (visitAll_ok hT hi hv).2
         have : ownersDone T own sp st1 = true := by
           simp only [ownersDone, List.all_eq_true]
-          exact hd
+          exact fun o ho => hd o ((hown o).2 ho)
         simp only [Trav.guarded, this, if_true]
 
 /-- the logged traversal obeys the same laws (the invariant ignores the log) -/
@@ -467,5 +571,89 @@ theorem reach_mem_log {own : Bytes → List Bytes} {l : List Bytes} (hn : l.Nodu
   rcases reach_before hn htop h ha with rfl | h
   · exact ha
   · exact h.mem_left
+
+/-! ## command level: one traversal per target, shared memo, fresh recursion stack -/
+
+section Cmd
+variable {κ : Type}
+
+/-- `perTarget` on states carrying the ghost log -/
+def perTargetLogged (f : Bytes → World κ × List Bytes → Except Err (World κ × List Bytes)) :
+    List Bytes → World κ × List Bytes → Except Err (World κ × List Bytes)
+  | [], p => .ok p
+  | t :: r, p =>
+    if (alookup p.1.idx t).isNone then .error .unknownStage else
+    match f t p with
+    | .error e => .error e
+    | .ok p' => perTargetLogged f r p'
+
+theorem perTarget_eq_visitAll (f : Bytes → World κ → Except Err (World κ)) : ∀ (ts : List Bytes) (w : World κ),
+    perTarget f ts w =
+      visitAll (fun t w => if (alookup w.idx t).isNone then .error .unknownStage else f t w) ts w
+  | [], _ => rfl
+  | t :: r, w => by
+    simp only [perTarget, visitAll]
+    split
+    · rfl
+    · cases f t w with
+      | error e => rfl
+      | ok w' => exact perTarget_eq_visitAll f r w'
+
+theorem perTargetLogged_eq_visitAll (f : Bytes → World κ × List Bytes → Except Err (World κ × List Bytes)) :
+    ∀ (ts : List Bytes) (p : World κ × List Bytes),
+    perTargetLogged f ts p =
+      visitAll (fun t p => if (alookup p.1.idx t).isNone then .error .unknownStage else f t p) ts p
+  | [], _ => rfl
+  | t :: r, p => by
+    simp only [perTargetLogged, visitAll]
+    split
+    · rfl
+    · cases f t p with
+      | error e => rfl
+      | ok p' => exact perTargetLogged_eq_visitAll f r p'
+
+theorem perTargetLogged_erase {fL : Bytes → World κ × List Bytes → Except Err (World κ × List Bytes)}
+    {f : Bytes → World κ → Except Err (World κ)} (h : ∀ t w l, (fL t (w, l)).map (·.1) = f t w)
+    (ts : List Bytes) (w : World κ) (l : List Bytes) :
+    (perTargetLogged fL ts (w, l)).map (·.1) = perTarget f ts w := by
+  rw [perTargetLogged_eq_visitAll, perTarget_eq_visitAll]
+  refine visitAll_erase (fun t w l => ?_) ts w l
+  simp only
+  split
+  · rfl
+  · exact h t w l
+
+variable {T : Trav (World κ)} {own : Bytes → List Bytes} {Inv : World κ → Prop} {r : Bool}
+
+/-- the whole command is one `Trace`: the targets play the role of the owner list -/
+theorem perTarget_trace (hT : T.LawfulOn own Inv) (F : World κ → Nat) (A : World κ → List Bytes)
+    (ts : List Bytes) (p p' : World κ × List Bytes) (hi : Inv p.1)
+    (h : perTargetLogged (fun t p => visit T.logged r (F p.1) (A p.1) t p) ts p = .ok p') :
+    Trace T own Inv r (fun _ => True) (fun x => ∃ t, t ∈ ts ∧ Reach own t x) p p' ∧
+      ∀ t, t ∈ ts → T.isDone p'.1 t = true := by
+  rw [perTargetLogged_eq_visitAll] at h
+  refine visitAll_trace (fun o q q' hq hv => ?_) ts p p' hi h
+  split at hv
+  · cases hv
+  · obtain ⟨t, d⟩ := visit_trace hT _ _ o q q' hq hv
+    exact ⟨t.mono (fun _ _ => trivial) (fun _ h => h), d⟩
+
+/-- invariant principle for a whole command; `R` = "upstream of some target" -/
+theorem perTarget_preserves (hT : T.LawfulOn own Inv) (F : World κ → Nat) (A : World κ → List Bytes)
+    (ts : List Bytes) {Q : World κ × List Bytes → Prop}
+    (hQ : ∀ sp p p', (∃ t, t ∈ ts ∧ Reach own t sp) → Inv p.1 → Q p → T.isDone p.1 sp = false →
+      (r = true → ∀ o, o ∈ own sp → T.isDone p.1 o = true) → T.logged.act sp p = .ok p' → Q p')
+    (p p' : World κ × List Bytes) (hi : Inv p.1) (hq : Q p)
+    (h : perTargetLogged (fun t p => visit T.logged r (F p.1) (A p.1) t p) ts p = .ok p') : Q p' := by
+  rw [perTargetLogged_eq_visitAll] at h
+  refine (visitAll_preserves (Inv := Inv) (Q := Q) ts (fun o ho q q' hqi hqq hv => ?_) p p' hi hq h).2
+  split at hv
+  · cases hv
+  · exact ⟨(visit_trace hT _ _ o q q' hqi hv).1.inv,
+      visit_preserves_on (R := fun x => ∃ t, t ∈ ts ∧ Reach own t x) hT
+        (fun a o' ⟨t, ht, hr⟩ ho' => ⟨t, ht, hr.trans (.step ho' (.refl _))⟩)
+        hQ _ _ o q q' ⟨o, ho, .refl _⟩ hqi hqq hv⟩
+
+end Cmd
 
 end Dud
